@@ -7,7 +7,6 @@ import (
 	"sort"
 	"strconv"
 	"strings"
-	"sync"
 )
 
 type compiler struct {
@@ -22,7 +21,7 @@ type compiler struct {
 	scopes        []*scopeinfo
 	scopecnt      int
 	moduleDepth   int
-	regexpCache   sync.Map
+	regexpCache   regexpCache
 }
 
 // Code is a compiled jq query.
